@@ -106,6 +106,8 @@ def _work(args):
             continue
         agg['n'] += 1
         for vi, s2 in enumerate(variants):
+            if vi and time.time() > deadline + 20:
+                break          # (the variants of one scenario can be many: crash points, failing invocations)
             try:
                 out = fam.evaluate(prop, s2)
             except Exception:
